@@ -218,7 +218,7 @@ func seqQueries(u *Universe, ref *Ref, maxPairs int) []Query {
 			qs = append(qs, Query{Kind: SeqPrefix, A: p})
 		}
 	}
-	if u.HasRange {
+	if u.HasRange || u.Kind == "collation" { // collation Range has no specified result, but it is a sequence like any other
 		n := len(u.Bounds)
 		total := n * n
 		step := 1
